@@ -150,7 +150,7 @@ func runCheck(id, tier string) int {
 		return 3
 	}
 	cfg := &RunConfig{
-		Unwind: 4000, MaxSteps: 20_000_000, MaxAlloc: 1 << 16, MaxConcretize: 70000,
+		Unwind: 4000, MaxSteps: 20_000_000, MaxAlloc: 1 << 19, MaxConcretize: 70000,
 		Bounds: tc.Bounds, Solver: SolverKind(cc.Solver), TimeoutMs: 20000,
 		Workers: envInt("VERIF_WORKERS", runtime.NumCPU()), Seed: seed, MaxPaths: tc.MaxPaths,
 		Debug: os.Getenv("VERIF_DEBUG") != "",
